@@ -64,3 +64,57 @@ Example C16_stale_pointer_loses_update :
   ok_run (ps_init 2) [] ops = false /\
   ps_view (fst (ps_run (ps_init 2) ops)) 1 = 11 /\ ref_get 1 (ref_run [] ops) = 99.
 Proof. vm_compute. repeat split; reflexivity. Qed.
+
+(* ====================== the page-store oracle of the check and the theorems ======================
+   The page-store sub-check of tools/props/c16.py runs the real fileStore on caller-level operation
+   lists (Spec/PStoreSpec.v `hop`: the caller modifies the object it got from its latest fetch /
+   allocation of that page) and evaluates, per case (capacity, operations, observed outputs), the
+   functions of Spec/PStoreObs.v: `ps_model_agrees` (PM: within the discipline `ok_run`, the real
+   outputs equal the model's up to object identities) and `ps_spec` (PS: within the discipline,
+   every fetch returned what the cache-less reference map holds).
+   PROVED (Proofs/PStoreOracle.v, through the invariant PInv of the theorems above): the oracle
+   accepts the model's own outputs, hence PM-agreement implies PS-acceptance, for every capacity,
+   every operation list and every observation list.
+   Hypothesis `mods_held` (syntactic, on the operation list: a page is modified only after it was
+   fetched or allocated): the oracle's reference applies every HModify, while the model and the Go
+   driver skip an HModify of a page the caller holds no object for; without it the oracle rejects
+   the model (C16_mods_held_needed). The generator of the check allocates every page it names
+   first, so its cases satisfy it. *)
+From Mkdb Require Import Spec.PStoreObs Proofs.PStoreOracle.
+
+Theorem C16_oracle_accepts_model : forall cap ops,
+  mods_follow_fetch [] ops = true ->
+  ps_spec (cap, ops, snd (hrun (ps_init cap) [] ops)) = true.
+Proof. exact oracle_accepts_model. Qed.
+Print Assumptions C16_oracle_accepts_model.
+
+Theorem C16_agreement_implies_acceptance : forall c : pcase,
+  mods_held c = true -> ps_model_agrees c = true -> ps_spec c = true.
+Proof. exact agreement_implies_acceptance. Qed.
+Print Assumptions C16_agreement_implies_acceptance.
+
+Example C16_mods_held_needed :
+  let ops := [HModify 1 5; HFetch 1] in
+  let c := (3%nat, ops, snd (hrun (ps_init 3) [] ops)) in
+  in_discipline c = true /\ ps_model_agrees c = true /\ mods_held c = false /\ ps_spec c = false.
+Proof. vm_compute. repeat split; reflexivity. Qed.
+
+(* non-vacuity: the run of C16_nonvacuous at the caller level (3-page cache, 4 pages, evictions and
+   re-reads), observed with other object identities than the model's: within the discipline, the
+   hypothesis holds, the model agrees and the oracle accepts (not through the out-of-discipline
+   escape); and the oracle has teeth: the same observation with one fetched content changed is
+   rejected by both *)
+Definition ex_hops : list hop :=
+  [HAlloc 1 10; HModify 1 11; HAlloc 2 20; HModify 2 21; HFlush [1; 2];
+   HAlloc 3 30; HModify 3 31; HAlloc 4 40; HModify 4 41; HFlush [];
+   HFetch 1; HModify 1 12; HFetch 2; HFetch 3; HFetch 1].
+Definition ex_obs (c2 : N) : list pout :=
+  [PObj 7 10; PUnit; PObj 8 20; PUnit; PUnit; PObj 9 30; PUnit; PObj 10 40; PUnit; PUnit;
+   PObj 11 11; PUnit; PObj 12 c2; PObj 13 31; PObj 14 12].
+Example C16_agreement_nonvacuous :
+  fst (hrun (ps_init 3) [] ex_hops) = ex_ops ++ [PFetch 1] /\
+  in_discipline (3%nat, ex_hops, ex_obs 21) = true /\ mods_held (3%nat, ex_hops, ex_obs 21) = true /\
+  ps_model_agrees (3%nat, ex_hops, ex_obs 21) = true /\ ps_spec (3%nat, ex_hops, ex_obs 21) = true /\
+  href_ok [] ex_hops (ex_obs 21) = true /\
+  ps_model_agrees (3%nat, ex_hops, ex_obs 20) = false /\ ps_spec (3%nat, ex_hops, ex_obs 20) = false.
+Proof. vm_compute. repeat split; reflexivity. Qed.
